@@ -22,13 +22,23 @@ import (
 
 var Cancelled = errors.New("transaction cancelled")
 
+// CONNECT transaction states: which client packet the transaction waits for.
+type connectState int
+
+const (
+	awaitingAuth connectState = iota
+	awaitingWillTopic
+	awaitingWillMsg
+	awaitingConnack
+)
+
 type connectTransaction struct {
 	*transactions.TimedTransaction
-	handler       *handler1
-	log           util.Logger
-	authEnabled   bool
-	mqConnect     *mqPkts.ConnectPacket
-	authenticated bool
+	handler     *handler1
+	log         util.Logger
+	authEnabled bool
+	mqConnect   *mqPkts.ConnectPacket
+	state       connectState
 }
 
 func newConnectTransaction(ctx context.Context, h *handler1, authEnabled bool, mqConnect *mqPkts.ConnectPacket) *connectTransaction {
@@ -69,18 +79,31 @@ func (t *connectTransaction) Start(ctx context.Context) error {
 
 	if t.authEnabled {
 		t.log.Debug("Waiting for AUTH packet.")
+		t.state = awaitingAuth
 		return nil
 	}
 
+	return t.authenticated()
+}
+
+// Continue after the client is authenticated (or does not have to be).
+func (t *connectTransaction) authenticated() error {
 	if t.mqConnect.WillFlag {
 		// Continue with WILLTOPICREQ.
+		t.state = awaitingWillTopic
 		return t.handler.snSend(snPkts1.NewWillTopicReq())
 	}
 
+	// All information successfully gathered - send MQTT connect.
+	t.state = awaitingConnack
 	return t.handler.mqttSend(t.mqConnect)
 }
 
 func (t *connectTransaction) Auth(snPkt *snPkts1.Auth) error {
+	if t.state != awaitingAuth {
+		t.log.Debug("Unexpected packet in %d: %v", t.state, snPkt)
+		return nil
+	}
 	// Extract username and password from PLAIN data.
 	if snPkt.Method == snPkts1.AUTH_PLAIN {
 		user, password, err := snPkt.DecodePlain()
@@ -101,32 +124,52 @@ func (t *connectTransaction) Auth(snPkt *snPkts1.Auth) error {
 		return err
 	}
 
-	if t.mqConnect.WillFlag {
-		// Continue with WILLTOPICREQ.
-		return t.handler.snSend(snPkts1.NewWillTopicReq())
-	}
-
-	// All information successfully gathered - send MQTT connect.
-	return t.handler.mqttSend(t.mqConnect)
+	return t.authenticated()
 }
 
 func (t *connectTransaction) WillTopic(snWillTopic *snPkts1.WillTopic) error {
-	t.mqConnect.WillQos = snWillTopic.QOS
-	t.mqConnect.WillRetain = snWillTopic.Retain
-	t.mqConnect.WillTopic = snWillTopic.WillTopic
+	if t.state != awaitingWillTopic {
+		t.log.Debug("Unexpected packet in %d: %v", t.state, snWillTopic)
+		return nil
+	}
+	if snWillTopic.QOS > 2 {
+		err := fmt.Errorf("invalid will QoS: %d", snWillTopic.QOS)
+		t.Fail(err)
+		return err
+	}
+	if snWillTopic.WillTopic == "" {
+		// An empty WILLTOPIC packet means "no will".
+		t.mqConnect.WillFlag = false
+	} else {
+		t.mqConnect.WillQos = snWillTopic.QOS
+		t.mqConnect.WillRetain = snWillTopic.Retain
+		t.mqConnect.WillTopic = snWillTopic.WillTopic
+	}
 
 	// Continue with WILLMSGREQ.
+	t.state = awaitingWillMsg
 	return t.handler.snSend(snPkts1.NewWillMsgReq())
 }
 
 func (t *connectTransaction) WillMsg(snWillMsg *snPkts1.WillMsg) error {
-	t.mqConnect.WillMessage = snWillMsg.WillMsg
+	if t.state != awaitingWillMsg {
+		t.log.Debug("Unexpected packet in %d: %v", t.state, snWillMsg)
+		return nil
+	}
+	if t.mqConnect.WillFlag {
+		t.mqConnect.WillMessage = snWillMsg.WillMsg
+	}
 
 	// All information successfully gathered - send MQTT connect.
+	t.state = awaitingConnack
 	return t.handler.mqttSend(t.mqConnect)
 }
 
 func (t *connectTransaction) Connack(mqConnack *mqPkts.ConnackPacket) error {
+	if t.state != awaitingConnack {
+		t.log.Debug("Unexpected packet in %d: %v", t.state, mqConnack)
+		return nil
+	}
 	if mqConnack.ReturnCode != mqPkts.Accepted {
 		// We misuse RC_CONGESTION here because MQTT-SN spec v. 1.2 does not define
 		// any suitable return code.
